@@ -78,7 +78,7 @@ def run(ctx):
               f"junction candidates are {sorted(T.show(x) for x in elems if x)}; expected exactly E[0] and E[-1]")
     tj = [e for e in s.stores("tj_vertices") if e.base == SELF]
     mat = [e for e in s.stores("matrix") if e.base == SELF]
-    ctx.check(len(mat) == 1 and mat[0].value == T.call(f"{FM}._build_matrix", (SELF,)) and tj and tj[0].node.lineno < mat[0].node.lineno,
+    ctx.check(len(mat) == 1 and mat[0].value == T.call(f"{FM}._build_matrix", (SELF,)) and tj and s.pos(tj[0]) < s.pos(mat[0]),
               "ALIGN", f"{f.qualname} / ALIGN / matrix built after the junction list", ctx.where(f),
               "self.matrix = self._build_matrix() after self.tj_vertices is set", "self.matrix is not built by _build_matrix() after tj_vertices")
 
